@@ -1,12 +1,35 @@
 """C13 — compression and vector-to-MPS conversion obey their truncation error bounds."""
 import numpy as np
 import gen as G
+import emit as E
+import bondops_common as BC
+import orth_common as OC
 
 PROP = 'C13'
-COQ_IMPORTS = ['PT.Base.Scalar']
-FORM = 'see coq(): replay of the local SVD steps (form R) where the model is available'
+COQ_IMPORTS = OC.COQ_IMPORTS
+COQ_PREAMBLE = OC.COQ_PREAMBLE
+SHARD = 4
+FORM = ('R (replay of the whole of MPS.compress): on the replayed subset (compress cases with L <= 3 and all bond dimensions <= 4; at most 90 cases in quick) every '
+        'numpy.linalg.qr, numpy.linalg.svd and (unstable) numpy.argsort call issued during MPS.compress is recorded; input tensors, charges, tol and the recorded '
+        'tables are shipped as exact rationals and Model/Orthonormalize.v mps_compress is evaluated by vm_compute over Q(i) with the tables (nearest recorded argument, '
+        'entry-wise 1e-9*(1+scale)) as oracles and the returned abs(T) as the answer of the abs oracle; compared inside Coq: qd and every qD exactly, all shapes exactly '
+        '(hence the kept index sets), every tensor entry, nrm and scale within 1e-9*(1+scale) in exact rational arithmetic, and the abs contract scale >= 0, scale^2 = |T|^2 '
+        'on the model\'s T; a qr/svd lookup miss makes the model fail = mismatch. Skipped (class suffix /amb): cases where exact arithmetic puts a cumulative weight '
+        'within 1e-9 of tol, or whose recorded tables are ambiguous for a nearest-argument lookup. from_vector is not modelled (prop only). All generated cases go through prop.')
+TRUSTED = ['hand-written Gallina mirror of MPS.compress and the local SVD functions (Model/Orthonormalize.v on top of Model/BondOps.v block_svd / retained) tied to the code by the replay on every run',
+           'numpy.linalg.qr, numpy.linalg.svd (LAPACK): contracts assumed in the theorems only for the issued calls; measured to 1e-12 on every recorded call',
+           'numpy.argsort (unstable): a sorting permutation; the recorded permutation is an input of the model',
+           'abs of a complex number (square root): oracle with contract abs(z) >= 0, abs(z)^2 = |z|^2, checked on every replayed case',
+           'independent numpy re-implementation of the clauses (dense contraction, dense SVD of the first cut) in harness/props/c13.py (search only)']
+PARTIAL = ('see Properties/C13.v: proved for all inputs = the theorems listed there; validated numerically on every generated input only = whatever is named _partial there or '
+           'kept as a comment (in particular the exact error identity, the from_vector bound and the Schmidt-value statement for the first truncated bond), rounding, '
+           'that the code computes what the model computes.')
+ASSUMPTIONS = ['binary64 values are read as exact rationals; float arithmetic after a primitive is compared with tolerance 1e-9*(1+scale)',
+               'MPS.from_vector is not modelled in Coq: its clause is validated numerically only',
+               'the is_qsparse assertions inside MPS.compress are not mirrored by the model']
+NREPLAY = {'quick': 90, 'thorough': 500, 'search': 0}
 RULE = ('compress: non-zero MPS, L in 1..5, d in 1..3, bond profiles, charge classes, spectra from product states to flat / staircase '
-        'spectra sitting on the threshold, tol in {0, generic, dyadic boundary} with tol < 1/L, both modes; from_vector: d^n <= 729 entries, '
+        'spectra sitting on the threshold, tol in {0, generic, dyadic boundary} with tol < 1/L, both modes, every third case with an equally valid SVD oracle carrying random phases/signs (LAPACK never returns a phase on the last bond); from_vector: d^n <= 729 entries, '
         'tol in [0, 1/L); non-trivial = some bond actually truncated or L >= 3; distinct by input digest')
 IMPL_PARALLEL = True
 
@@ -22,6 +45,11 @@ def cases(rng, tier):
                     'qclass': rng.choice(G.QCLASSES), 'mode': rng.choice(['left', 'right']),
                     'spectrum': rng.choice(['random', 'product', 'flat', 'stair', 'sum']),
                     'tol_kind': tol_kind, 'tol_frac': rng.random(), 'Dmax': rng.choice([2, 3, 4, 6])})
+    left = NREPLAY[tier]
+    for c in out:
+        if c['kind'] == 'compress' and c['L'] <= 3 and c['Dmax'] <= 4 and left > 0:
+            c['replay'] = True
+            left -= 1
     return out
 
 
@@ -100,8 +128,18 @@ def impl(case):
         schmidt = np.linalg.svd(M, compute_uv=False)
     else:
         schmidt = np.array([1.0])
+    rec = BC.Recorder()
+    retlog = []
+    do_rec = bool(case.get('replay')) and max(dims0) <= 4
+    inp = OC.obj_to_json(psi) if do_rec else None
+    # every third case runs with an equally valid SVD oracle whose factors carry random phases / signs (derived from the
+    # case seed, no extra random draws): the property quantifies over every valid SVD
+    twist = case['seed'] % 3 == 0
+    import contextlib
     try:
-        nrm, scale = psi.compress(tol, mode=case['mode'])
+        with (OC.patch_svd_phase(case['seed'], any(np.iscomplexobj(a) for a in psi.A)) if twist else contextlib.nullcontext()), \
+                rec.patch_qr(), rec.patch_svd(), OC.patch_retained(retlog):
+            nrm, scale = psi.compress(tol, mode=case['mode'])
     except Exception as e:
         return {'error': type(e).__name__, 'detail': str(e)[:200]}
     v1 = G.mps_dense(psi.A)
@@ -122,7 +160,11 @@ def impl(case):
             'err': float(np.linalg.norm(nrm * scale * v1 - v0)), 'norm_after': float(np.linalg.norm(v1)),
             'dims0': dims0, 'dims1': dims1, 'iso': iso, 'sparsity': G.mps_sparsity_ok(psi),
             'kept_first': (dims1[first] if first is not None else 1), 'kept_expected': kept_expected,
-            'margin': float(margin), 'rank_first': int(np.sum(schmidt > 1e-13)), 'tiny': float(np.min(schmidt[schmidt > 1e-13])) if np.any(schmidt > 1e-13) else 0.0}
+            'margin': float(margin), 'rank_first': int(np.sum(schmidt > 1e-13)), 'tiny': float(np.min(schmidt[schmidt > 1e-13])) if np.any(schmidt > 1e-13) else 0.0,
+            'scale_imag': float(np.imag(scale)), 'nrm_imag': float(np.imag(nrm)),
+            'lapack': OC.qr_contract_msgs(OC.qr_calls_json(rec)) + OC.svd_contract_msgs(OC.svd_calls_json(rec)),
+            'rec': ({'inp': inp, 'out': OC.obj_to_json(psi), 'qr': OC.qr_calls_json(rec), 'svd': OC.svd_calls_json(rec),
+                     'argsort': OC.argsort_calls_json(rec), 'retained': retlog} if do_rec else None)}
 
 
 def prop(case, r):
@@ -168,11 +210,48 @@ def prop(case, r):
             msgs.append('first truncated bond keeps %d Schmidt values, tolerance rule prescribes %d' % (r['kept_first'], r['kept_expected']))
     if r['sparsity']:
         msgs.append('result not block sparse / list lengths wrong: %s' % r['sparsity'])
+    if r.get('scale_imag') or r.get('nrm_imag'):
+        msgs.append('returned norm / scale is not real')
+    msgs += r.get('lapack', [])
     return msgs
 
 
+def _replay(case, r):
+    """(eps, ambiguous) for a replayed case, None if the case is not replayed"""
+    if 'skip' in r or 'error' in r or not r.get('rec'):
+        return None
+    rc = r['rec']
+    tens = [c[k] for c in rc['qr'] for k in ('arg', 'Q', 'R')] + [c[k] for c in rc['svd'] for k in ('arg', 'u', 'v')]
+    scale = max([OC.scale_of(rc['inp']['A'], rc['out']['A'], tens), abs(r['nrm']), abs(r['scale'])] + [abs(x) for c in rc['svd'] for x in c['s']])
+    eps = OC.eps_for(scale)
+    amb = OC.lookup_ambiguous([OC.j2t(c['arg']) for c in rc['qr']], [(OC.j2t(c['Q']), OC.j2t(c['R'])) for c in rc['qr']], float(eps)) \
+        or OC.lookup_ambiguous([OC.j2t(c['arg']) for c in rc['svd']], [(OC.j2t(c['u']), np.array(c['s']), OC.j2t(c['v'])) for c in rc['svd']], float(eps)) \
+        or OC.lookup_ambiguous([np.array(c['arg']) for c in rc['argsort']], [(np.array(c['idx']),) for c in rc['argsort']], float(eps)) \
+        or OC.retained_ambiguous(rc['retained'], rc['argsort'])
+    return eps, amb
+
+
+def _coq_args(case, r, eps):
+    rc = r['rec']
+    return (E.boolean(case['mode'] == 'left'), E.qc(eps), E.qc(r['tol']), OC.qr_table(rc['qr']), OC.svd_table(rc['svd']), OC.pick_table(rc['argsort']),
+            OC.mps_lit(rc['inp']))
+
+
 def coq(case, r):
-    return None
+    rp = _replay(case, r)
+    if rp is None or rp[1]:
+        return None
+    rc = r['rec']
+    return 'check_compress (F:=QcF) %s %s %s %s %s %s %s' % _coq_args(case, r, rp[0]) + ' %s %s %s' % (OC.mps_lit(rc['out']), E.qc(r['nrm']), E.qc(r['scale']))
+
+
+def coq_diag(case, r):
+    rp = _replay(case, r)
+    if rp is None:
+        return 'true'
+    left, eps, tol, qt, st, pt, inp = _coq_args(case, r, rp[0])
+    return ('mps_compress (F:=QcF) (qr_aoracle %s %s) (svd_aoracle %s %s) (pick_aoracle %s %s) (fun _ => %s) %s %s %s'
+            % (eps, qt, eps, st, eps, pt, E.qc(r['scale']), tol, left, inp))
 
 
 def klass(case, r):
@@ -181,7 +260,9 @@ def klass(case, r):
     if case['kind'] == 'from_vector':
         return 'from_vector/%s' % case['tol_kind']
     tr = 'truncated' if r['dims1'] != r['dims0'] else 'same-dims'
-    return 'compress/%s/%s/%s/%s' % (case['mode'], case['spectrum'], case['tol_kind'], tr)
+    rp = _replay(case, r)
+    tag = '' if rp is None else ('/replayed-amb' if rp[1] else '/replayed')
+    return 'compress/%s/%s/%s/%s%s%s' % (case['mode'], case['spectrum'], case['tol_kind'], tr, '/twisted-svd' if case['seed'] % 3 == 0 else '', tag)
 
 
 def nontrivial(case, r):
